@@ -21,8 +21,11 @@ CHUNK = 40
 
 XREF = ["        ORG $1000", "FIRST   LDX #LAST", "        BRA MIDDLE", "        LEAX LAST,PCR", "VAL     EQU 7", "MIDDLE  LDA #VAL",
         "        BNE FIRST", "        LDY [FIRST,PCR]", "        JSR LAST+1", "LAST    RTS", "        FDB $1234"]
+# FCC strings are taken verbatim from the line: a TAB, a semicolon, runs of spaces and an unusual delimiter inside them
+STRINGS = ["        ORG $3000", "BEGIN   LDX #TEXT2", 'TEXT1   FCC "A\tB"', "TEXT2   FCC /semi;colon and  two spaces/", "TEXT3   FCC #hash#",
+           "        LEAY TEXT1,PCR", "        BNE BEGIN", "AFTER   JMP TEXT3", "        FCB 1,2,3"]
 BIG = {"readme": [ln for ln in c13.README if ln.strip() and not ln.strip().startswith(";")], "xref": XREF,
-       "pcr": c13.PCRS}
+       "pcr": c13.PCRS, "strings": STRINGS}
 
 
 def base_programs(tier):
@@ -88,6 +91,10 @@ def cases(tier, seed):
             if name in BIG and len(plan) <= 2 and zlib.crc32(key.encode()) % 4 == 0:
                 # the same cut with the included files in a sub-directory (paths stay relative to the working directory)
                 yield {"k": "split", "base": name, "lines": lines, "plan": plan, "subdir": True}
+            if name in BIG and len(plan) <= 2 and zlib.crc32(key.encode()) % 16 == 1:
+                # other legal spellings of the path: ./name, a parent step (sub/../name, sub/dir.1/../dir.1/name), an absolute path
+                for style in ("dot", "dotdot", "dotdot.deep", "abs"):
+                    yield {"k": "split", "base": name, "lines": lines, "plan": plan, "subdir": style}
     # the same (label-free) file included more than once: twice from the main file, and once directly + once through another file
     for name, lines in list(BIG.items()) + [("frag", ["START NOP", " LDA #1", " STA ,X+", "MID LEAX END1,PCR", " BNE START", " LDB #2", "END1 RTS", " JMP MID"])]:
         n = len(lines)
@@ -106,7 +113,8 @@ def materialise(lines, plan, subdir=False):
     """-> (main lines, {filename: lines}) for a plan"""
     files = {}
     counter = [0]
-    prefix = "sub/dir.1/" if subdir else ""
+    prefix = {False: "", None: "", True: "sub/dir.1/", "dot": "./", "dotdot": "sub/../", "dotdot.deep": "sub/dir.1/../dir.1/",
+              "abs": os.getcwd() + "/"}[subdir]
 
     def build(lo, hi, children):
         out = []
@@ -186,9 +194,11 @@ def check_case(case):
             lines = case["lines"]
             main, files = materialise(lines, case["plan"], case.get("subdir", False))
             depth = _depth(case["plan"])
-            cell = "split|{}|files={}|depth={}{}".format(case["base"].split(":")[0], len(files), depth, "|subdir" if case.get("subdir") else "")
-            if case.get("subdir"):
+            sd = case.get("subdir")
+            cell = "split|{}|files={}|depth={}{}".format(case["base"].split(":")[0], len(files), depth, "" if not sd else "|subdir" if sd is True else "|path." + sd)
+            if sd:
                 os.makedirs("sub/dir.1")
+                files = {os.path.normpath(fn): content for fn, content in files.items()}
             ref = common.assemble_confirm(lines)
             for fn, content in files.items():
                 open(fn, "w").write("".join(ln + "\n" for ln in content))
@@ -235,7 +245,7 @@ def describe(tier):
                     ") sequence of C02's core alphabet with every label binding",
         "bound": "every single contiguous slice moved to an included file; every pair of disjoint slices; every slice nested in a slice (and a third "
                  "level for programs of <= 4 lines" + (" / <= 11 lines" if tier == "thorough" else "") + "); three consecutive includes; a 3-level wrap of the whole "
-                 "program; include depth 3; 6 error graphs (self, 2- and 3-cycles, missing, nested missing, directory)",
+                 "program; include depth 3; included files reached through sub/dir.1/name, ./name, sub/../name, sub/dir.1/../dir.1/name and an absolute path; 6 error graphs (self, 2- and 3-cycles, missing, nested missing, directory)",
         "oracle": "Program.process on the including file (cwd = private directory) gives the same image, listing addresses, symbol table and origin "
                   "as the spliced single file (same diagnostic if the base is rejected); a sample of the larger programs also through assembler.py "
                   "--print --symbols --to_bin; missing file / cycle => diagnostic, exit != 0, no output file",
